@@ -77,6 +77,15 @@ func advAssignments() []advAssignment {
 			}
 			return specLeaf(i)
 		}},
+		{"a-leaf-equals-the-hash-of-an-internal-node-of-another-tree", func(i int) Hash {
+			switch i {
+			case 4:
+				return sib(specLeaf(0), specLeaf(1))
+			case 5:
+				return sib(specLeaf(2), specLeaf(3))
+			}
+			return specLeaf(i)
+		}},
 	}
 }
 
@@ -169,8 +178,39 @@ func TestRAC_ADV(t *testing.T) {
 			res.tagged("/leaf-values="+a.name, func(tmp *racResult) { runUndoHistory(tmp, cfgs, h, &nh, true) })
 		})
 	}
+	// the same assignments on 6 leaves / 2 blocks (a sixth leaf puts a two-leaf tree next to the four-leaf tree)
+	for _, a := range assignments {
+		racLeaf = a.leaf
+		enumHistories(6, 2, func(h racHistory) {
+			total := 0
+			for _, b := range h {
+				total += b.Adds
+			}
+			if total < 6 {
+				return // covered above
+			}
+			res.seen(a.name + "/" + h.String())
+			res.tagged("/leaf-values="+a.name, func(tmp *racResult) { runUndoHistory(tmp, cfgs, h, &nh, true) })
+		})
+	}
 	racLeaf = specLeaf
+	// blocks that re-add a value they have just deleted
+	racReuseDeleted = true
+	enumHistories(maxLeaves, maxBlocks, func(h racHistory) {
+		reuse := false
+		for _, b := range h {
+			if len(b.Dels) > 0 && b.Adds > 0 {
+				reuse = true
+			}
+		}
+		if !reuse {
+			return
+		}
+		res.seen("re-add/" + h.String())
+		res.tagged("/leaf-values=a-block-re-adds-a-value-it-deletes", func(tmp *racResult) { runUndoHistory(tmp, cfgs, h, &nh, true) })
+	})
+	racReuseDeleted = false
 	res.Exhaustive = true
-	res.Rule = "adversarial leaf values: forests of 1..9 leaves with look-ups of never-added hashes sharing a 12-byte prefix with each live leaf; forests of 2^k+1 leaves (k=1..3) whose last leaf equals the root hash of the 2^k tree; forests with two live leaves sharing a 12-byte prefix; every history with <= "+fmt.Sprint(maxLeaves)+" leaves / <= "+fmt.Sprint(maxBlocks)+" blocks under 4 adversarial value assignments (pairs / all leaves share a 12-byte prefix; a leaf equals the hash of a later / an earlier internal node) with the C01 root check after every block and the C06 full-view comparison after every undo depth. distinct = scenarios"
+	res.Rule = "adversarial leaf values: forests of 1..9 leaves with look-ups of never-added hashes sharing a 12-byte prefix with each live leaf; forests of 2^k+1 leaves (k=1..3) whose last leaf equals the root hash of the 2^k tree; forests with two live leaves sharing a 12-byte prefix; every history with <= "+fmt.Sprint(maxLeaves)+" leaves / <= "+fmt.Sprint(maxBlocks)+" blocks under 5 adversarial value assignments (pairs / all leaves share a 12-byte prefix; a leaf equals the hash of a later / an earlier internal node / an internal node of another tree), the same on 6 leaves / 2 blocks, and with blocks that re-add a value they have just deleted, with the C01 root check after every block and the C06 full-view comparison after every undo depth. distinct = scenarios"
 	res.write(t)
 }
